@@ -45,7 +45,79 @@ POSITIONS = {
  'enum_type_name':    lambda X: sel(['expr', ['asenum', X, ['val', V('String', 'a')]]]),
  'cast_as_enum':      lambda X: sel(['expr', ['m', 'as_enum', ['col', 'c'], X]], ['from', ['t', 't']]),
 }
-PG_ONLY = {'enum_type_name', 'cast_as_enum'}
+def ins(*calls): return {'k': 'insert', 'calls': list(calls)}
+def upd(*calls): return {'k': 'update', 'calls': list(calls)}
+def dele(*calls): return {'k': 'delete', 'calls': list(calls)}
+def ddl(k, *calls): return {'k': k, 'calls': [list(c) for c in calls]}
+def cdef(name, ty='Integer', *specs): return {'name': name, 'type': ty, 'specs': list(specs)}
+WIN = lambda X: {'calls': [['partition_by', ['col', X]]]}
+POSITIONS.update({
+ # ---- data-changing statements, CTEs, windows
+ 'insert_table':      lambda X: ins(['into_table', ['t', X]], ['columns', ['a']], ['values_panic', [ONE]]),
+ 'insert_column':     lambda X: ins(['into_table', ['t', 't']], ['columns', ['a', X]], ['values_panic', [ONE, ONE]]),
+ 'insert_returning':  lambda X: ins(['into_table', ['t', 't']], ['columns', ['a']], ['values_panic', [ONE]], ['returning_col', ['col', X]]),
+ 'conflict_target':   lambda X: ins(['into_table', ['t', 't']], ['columns', ['a']], ['values_panic', [ONE]], ['on_conflict', {'target': ['cols', [X]], 'calls': [['update_column', 'a']]}]),
+ 'conflict_update':   lambda X: ins(['into_table', ['t', 't']], ['columns', ['a']], ['values_panic', [ONE]], ['on_conflict', {'target': ['cols', ['a']], 'calls': [['update_column', X]]}]),
+ 'conflict_value':    lambda X: ins(['into_table', ['t', 't']], ['columns', ['a']], ['values_panic', [ONE]], ['on_conflict', {'target': ['cols', ['a']], 'calls': [['value', X, ONE]]}]),
+ 'update_table':      lambda X: upd(['table', ['t', X]], ['value', 'a', ONE]),
+ 'update_set_column': lambda X: upd(['table', ['t', 't']], ['value', X, ONE]),
+ 'update_where':      lambda X: upd(['table', ['t', 't']], ['value', 'a', ONE], ['and_where', ['bin', 'Equal', ['tcol', 't', X], ONE]]),
+ 'delete_table':      lambda X: dele(['from_table', ['st', 's', X]]),
+ 'delete_order':      lambda X: dele(['from_table', ['t', 't']], ['order_by', ['col', X], 'Asc']),
+ 'cte_name':          lambda X: {'k': 'with', 'with': {'ctes': [{'name': X, 'cols': ['a'], 'query': sel(['column', ['col', 'c']], ['from', ['t', 't']])}]}, 'query': sel(['column', ['col', 'a']], ['from', ['t', 'u']])},
+ 'cte_column':        lambda X: {'k': 'with', 'with': {'ctes': [{'name': 'w', 'cols': ['a', X], 'query': sel(['column', ['col', 'c']], ['column', ['col', 'd']], ['from', ['t', 't']])}]}, 'query': sel(['column', ['col', 'a']], ['from', ['t', 'w']])},
+ 'window_partition':  lambda X: sel(['expr_window_as', ['func', 'sum', [['col', 'b']]], WIN(X), 'w'], ['from', ['t', 't']]),
+ 'window_alias':      lambda X: sel(['expr_window_as', ['func', 'sum', [['col', 'b']]], WIN('p'), X], ['from', ['t', 't']]),
+ 'window_name_ref':   lambda X: sel(['expr_window_name', ['func', 'sum', [['col', 'b']]], X], ['from', ['t', 't']]),
+ 'window_name_def':   lambda X: sel(['column', ['col', 'c']], ['from', ['t', 't']], ['window', X, WIN('p')]),
+ # ---- schema statements
+ 'create_table':      lambda X: ddl('table_create', ['table', ['t', X]], ['col', cdef('id')]),
+ 'create_table_schema': lambda X: ddl('table_create', ['table', ['st', X, 't']], ['col', cdef('id')]),
+ 'create_column':     lambda X: ddl('table_create', ['table', ['t', 't']], ['col', cdef(X)]),
+ 'create_pk_name':    lambda X: ddl('table_create', ['table', ['t', 't']], ['col', cdef('id')], ['primary_key', ddl('index_create', ['name', X], ['col', 'id'])]),
+ 'create_pk_column':  lambda X: ddl('table_create', ['table', ['t', 't']], ['col', cdef('id')], ['primary_key', ddl('index_create', ['col', X])]),
+ 'create_unique_name': lambda X: ddl('table_create', ['table', ['t', 't']], ['col', cdef('id')], ['index', ddl('index_create', ['name', X], ['col', 'id'], ['unique'])]),
+ 'create_fk_name':    lambda X: ddl('table_create', ['table', ['t', 't']], ['col', cdef('id')], ['foreign_key', ddl('fk_create', ['name', X], ['from_tbl', ['t', 't']], ['from_col', 'id'], ['to_tbl', ['t', 'u']], ['to_col', 'id'])]),
+ 'create_fk_column':  lambda X: ddl('table_create', ['table', ['t', 't']], ['col', cdef('id')], ['foreign_key', ddl('fk_create', ['name', 'fk'], ['from_tbl', ['t', 't']], ['from_col', X], ['to_tbl', ['t', 'u']], ['to_col', 'id'])]),
+ 'create_fk_ref_table': lambda X: ddl('table_create', ['table', ['t', 't']], ['col', cdef('id')], ['foreign_key', ddl('fk_create', ['name', 'fk'], ['from_tbl', ['t', 't']], ['from_col', 'id'], ['to_tbl', ['t', X]], ['to_col', 'id'])]),
+ 'create_fk_ref_column': lambda X: ddl('table_create', ['table', ['t', 't']], ['col', cdef('id')], ['foreign_key', ddl('fk_create', ['name', 'fk'], ['from_tbl', ['t', 't']], ['from_col', 'id'], ['to_tbl', ['t', 'u']], ['to_col', X])]),
+ 'alter_table':       lambda X: ddl('table_alter', ['table', ['t', X]], ['add_column', cdef('c')]),
+ 'alter_add_column':  lambda X: ddl('table_alter', ['table', ['t', 't']], ['add_column', cdef(X)]),
+ 'alter_modify_column': lambda X: ddl('table_alter', ['table', ['t', 't']], ['modify_column', cdef(X, 'BigInteger', 'NotNull')]),
+ 'alter_rename_from': lambda X: ddl('table_alter', ['table', ['t', 't']], ['rename_column', X, 'b']),
+ 'alter_rename_to':   lambda X: ddl('table_alter', ['table', ['t', 't']], ['rename_column', 'a', X]),
+ 'alter_drop_column': lambda X: ddl('table_alter', ['table', ['t', 't']], ['drop_column', X]),
+ 'alter_add_fk_name': lambda X: ddl('table_alter', ['table', ['t', 't']], ['add_foreign_key', ddl('fk_create', ['name', X], ['from_tbl', ['t', 't']], ['from_col', 'a'], ['to_tbl', ['t', 'u']], ['to_col', 'id'])]),
+ 'alter_drop_fk':     lambda X: ddl('table_alter', ['table', ['t', 't']], ['drop_foreign_key', X]),
+ 'drop_table':        lambda X: ddl('table_drop', ['table', ['t', 'a']], ['table', ['t', X]]),
+ 'rename_table_from': lambda X: ddl('table_rename', ['table', ['t', X], ['t', 'n']]),
+ 'rename_table_to':   lambda X: ddl('table_rename', ['table', ['t', 'o'], ['t', X]]),
+ 'truncate_table':    lambda X: ddl('table_truncate', ['table', ['t', X]]),
+ 'index_name':        lambda X: ddl('index_create', ['name', X], ['table', ['t', 't']], ['col', 'c']),
+ 'index_table':       lambda X: ddl('index_create', ['name', 'i'], ['table', ['t', X]], ['col', 'c']),
+ 'index_column':      lambda X: ddl('index_create', ['name', 'i'], ['table', ['t', 't']], ['col', 'c'], ['col', X, 'Desc']),
+ 'index_include':     lambda X: ddl('index_create', ['name', 'i'], ['table', ['t', 't']], ['col', 'c'], ['include', X]),
+ 'index_drop_name':   lambda X: ddl('index_drop', ['name', X], ['table', ['t', 't']]),
+ 'index_drop_table':  lambda X: ddl('index_drop', ['name', 'i'], ['table', ['t', X]]),
+ 'fk_create_name':    lambda X: ddl('fk_create', ['name', X], ['from_tbl', ['t', 't']], ['from_col', 'a'], ['to_tbl', ['t', 'u']], ['to_col', 'id']),
+ 'fk_create_table':   lambda X: ddl('fk_create', ['name', 'fk'], ['from_tbl', ['t', X]], ['from_col', 'a'], ['to_tbl', ['t', 'u']], ['to_col', 'id']),
+ 'fk_drop_name':      lambda X: ddl('fk_drop', ['name', X], ['table', ['t', 't']]),
+ 'type_create_name':  lambda X: ddl('type_create', ['as_enum', X], ['values', ['a']]),
+ 'type_drop_name':    lambda X: ddl('type_drop', ['name', X]),
+ 'type_alter_name':   lambda X: ddl('type_alter', ['name', X], ['add_value', 'v']),
+ 'type_rename_to':    lambda X: ddl('type_alter', ['name', 'ty'], ['rename_to', X]),
+ 'enum_column_type':  lambda X: ddl('table_create', ['table', ['t', 't']], ['col', cdef('c', ['Enum', X, ['a']])]),
+})
+PG_ONLY = {'enum_type_name', 'cast_as_enum', 'index_include', 'type_create_name', 'type_drop_name', 'type_alter_name', 'type_rename_to', 'enum_column_type'}
+# positions a dialect does not have (the builder panics or documents that it writes nothing there)
+NOT_ON = {'sqlite': {'alter_modify_column', 'alter_add_fk_name', 'alter_drop_fk', 'fk_create_name', 'fk_create_table', 'fk_drop_name', 'delete_order', 'truncate_table', 'create_fk_name', 'index_drop_table'},
+          'mysql': {'conflict_target', 'insert_returning'}, 'postgres': {'index_drop_table'}}
+QUERY_KINDS = ('select', 'insert', 'update', 'delete', 'with')
+def render_any(sq, st, backend):
+    if st['k'] in QUERY_KINDS:
+        txt, _ = sqstmt.render(sq, st['k'], sq.stmt(st), backend); return list(txt)
+    from props import sqddl
+    return list(sqddl.render(sq, st, backend))
 MARK = 'MARKERX'
 
 def entry_for(item, syms, vc, sampler, out, check=True):
@@ -54,16 +126,17 @@ def entry_for(item, syms, vc, sampler, out, check=True):
         for c in vc: e.add(c)
         sq = SQ(e)
         st = POSITIONS[pos](Sym(syms))
-        txt, _ = sqstmt.render(sq, st['k'], sq.stmt(st), backend); txt = list(txt)
+        txt = render_any(sq, st, backend)
         if not check:
             out.append({'item': item, 'input': list(syms), 'sql': txt}); return
         rs = POSITIONS[pos](MARK)
-        ref, _ = sqstmt.render(sq, rs['k'], sq.stmt(rs), backend); ref = list(ref)
+        ref = render_any(sq, rs, backend)
         q = lexers.IDQUOTE[backend]
         mt = [q] + [ord(c) for c in MARK] + [q]
         segs = split_on(ref, mt)
-        if len(segs) < 2: raise Unsupported('marker not found in %r' % (text(ref),))
         info = {}
+        if len(segs) < 2:
+            e.check(False, 'the name is not written as a quoted identifier at all (%s)' % text(ref), info); return
         p = 0
         for si, seg in enumerate(segs):
             e.check(len(txt) - p >= len(seg), 'statement ends inside its fixed text (segment %d)' % si, info)
@@ -107,6 +180,7 @@ def make_syms(item):
 
 def native_req(item, inp):
     st = POSITIONS[item[0]]({'cps': inp})
+    if st['k'] not in QUERY_KINDS: return {'op': 'render_ddl', 'backend': item[1], 'stmt': to_json(st)}
     return {'op': 'render', 'backend': item[1], 'entry': 'to_string', 'stmt': to_json(st)}
 
 def work(w):
@@ -152,7 +226,7 @@ def run(ctx):
     items = []
     for pos in POSITIONS:
         for b in BACKENDS:
-            if pos in PG_ONLY and b != 'postgres': continue
+            if (pos in PG_ONLY and b != 'postgres') or pos in NOT_ON.get(b, ()): continue
             for L in range(1, maxL + 1):
                 if L > 2 and pos not in ('column', 'from_table', 'select_alias', 'enum_type_name'): continue
                 items.append((pos, b, L))
@@ -170,7 +244,7 @@ def run(ctx):
                 if out and out[0]['sql'] == r.get('sql'): ctx.validated += 1
                 else: ctx.inconclusive.append('translator validation: %r %r engine %r native %r %r' % (item, s, out and text(out[0]['sql']), r, v[:1]))
     ctx.absorb(eng)
-    ctx.families = ['%s/%s' % (p, b) for p in POSITIONS for b in BACKENDS if not (p in PG_ONLY and b != 'postgres')]
+    ctx.families = ['%s/%s' % (p, b) for p in POSITIONS for b in BACKENDS if not ((p in PG_ONLY and b != 'postgres') or p in NOT_ON.get(b, ()))]
     for res in ctx.pmap(work, [(it, [], ctx.seed) for it in items]):
         if not merge_worker(ctx, res): continue
         for s in res['samples']:
